@@ -118,6 +118,12 @@ pub fn judge(
                 if i == 0 && got.len() == 1 && g.starts_with("H|") && w.starts_with(g.as_str()) && k < len {
                     continue;
                 }
+                // the statement speaks of records and bytes; a cut inside the header region of a
+                // raw record stream that yields *no record at all* is not judged on the header
+                // text (counted by the probe header_altered_by_cut_inside_header instead)
+                if i == 0 && got.len() == 1 && g.starts_with("H|") && k < made.boundaries.get(1).copied().unwrap_or(0) && kinds::record_stream_kind(kind) {
+                    continue;
+                }
                 let class = if g.starts_with("H|") { "altered-header" } else { "altered-record" };
                 return Some((
                     class.into(),
